@@ -148,6 +148,7 @@ type c10Scenario struct {
 	name     string
 	enc      string
 	prev     bool
+	link     string // with prev: the previous file is a symbolic link ("rel": to a plain file next to it, "abs": to a file elsewhere)
 	big      bool
 	dir      string
 	specFile string
@@ -171,9 +172,31 @@ func c10Spec(tag string, big bool) *specs.Spec {
 func (sc *c10Scenario) reset() {
 	os.RemoveAll(sc.dir)
 	must(os.MkdirAll(sc.dir, 0o755))
-	if sc.prev {
-		must(os.WriteFile(sc.target, sc.oldData, 0o644))
+	sc.putPrev()
+}
+
+// linkTarget is where the previous content lives when the Spec name is a link.
+func (sc *c10Scenario) linkTarget() string {
+	if sc.link == "abs" {
+		return filepath.Join(filepath.Dir(sc.dir), "elsewhere-prev.data")
 	}
+	return filepath.Join(sc.dir, "prev-target.data")
+}
+
+func (sc *c10Scenario) putPrev() {
+	if !sc.prev {
+		return
+	}
+	if sc.link == "" {
+		must(os.WriteFile(sc.target, sc.oldData, 0o644))
+		return
+	}
+	must(os.WriteFile(sc.linkTarget(), sc.oldData, 0o644))
+	to := sc.linkTarget()
+	if sc.link == "rel" {
+		to = filepath.Base(to)
+	}
+	must(os.Symlink(to, sc.target))
 }
 
 // dirOracle checks the directory after a crashed/failed/completed write.
@@ -203,6 +226,12 @@ func (sc *c10Scenario) dirOracle() (bad []string, state string) {
 			state = "new"
 		default:
 			bad = append(bad, fmt.Sprintf("Spec-named file %s holds %d bytes that are neither the complete previous (%d bytes) nor the complete new content (%d bytes): %q", name, len(data), len(sc.oldData), len(sc.newData), clip(string(data), 200)))
+		}
+	}
+	if sc.prev && sc.link != "" {
+		// the file the previous link points to is somebody else's: never written through
+		if data, err := os.ReadFile(sc.linkTarget()); err != nil || !bytes.Equal(data, sc.oldData) {
+			bad = append(bad, fmt.Sprintf("the file the previous symbolic link pointed to was written through or removed (%d bytes now, %d before; err=%v)", len(data), len(sc.oldData), err))
 		}
 	}
 	if state == "" {
@@ -261,11 +290,31 @@ func checkC10(c *Ctx) {
 	}
 	exe, _ := os.Executable()
 	var scenarios []*c10Scenario
+	type c10Combo struct {
+		enc  string
+		prev bool
+		big  bool
+		link string
+	}
+	var combos []c10Combo
 	for _, enc := range []string{"json", "yaml"} {
 		for _, prev := range []bool{true, false} {
 			for _, big := range []bool{false, true} {
-				sc := &c10Scenario{enc: enc, prev: prev, big: big}
+				combos = append(combos, c10Combo{enc, prev, big, ""})
+			}
+		}
+	}
+	// the previous file is a symbolic link (which the scan loads like a file)
+	combos = append(combos, c10Combo{"json", true, false, "rel"}, c10Combo{"json", true, true, "abs"}, c10Combo{"yaml", true, false, "abs"}, c10Combo{"yaml", true, true, "rel"})
+	for _, cb := range combos {
+		{
+			{
+				enc, prev, big := cb.enc, cb.prev, cb.big
+				sc := &c10Scenario{enc: enc, prev: prev, big: big, link: cb.link}
 				sc.name = fmt.Sprintf("%s-prev%v-big%v", enc, prev, big)
+				if cb.link != "" {
+					sc.name += "-link" + cb.link
+				}
 				sc.dir = filepath.Join(c.Scratch, "s-"+sc.name, "specs")
 				// the Spec name is the caller's: characters that mean something to a
 				// pattern, a format or a shell must not leak into how the file is staged
@@ -479,9 +528,7 @@ func checkC10(c *Ctx) {
 			if err := unix.Mount("tmpfs", sc.dir, "tmpfs", 0, size); err != nil {
 				c.Count("enospc_skipped_mount_refused", 1)
 			} else {
-				if sc.prev {
-					must(os.WriteFile(sc.target, sc.oldData, 0o644))
-				}
+				sc.putPrev()
 				if stale {
 					left := filepath.Join(sc.dir, "spec.424242.tmp")
 					must(os.WriteFile(left, bytes.Repeat([]byte("#stale\n"), 200*1024/7), 0o600))
